@@ -130,15 +130,180 @@ def gen_shapes_case(rng):
     return case
 
 
+LAYOUTS = ['C', 'F', 'T', 'strided', 'rev', 'swap']
+
+
+def with_layout(a, layout):
+    """The same 2-D array (same shape, dtype kind and values) in another memory layout.  The answer of detect_sources
+    is a function of the values only."""
+    a = np.asarray(a)
+    if layout == 'F':        # Fortran-ordered copy
+        out = np.asfortranarray(a)
+    elif layout == 'T':      # transposed view of the C-ordered transposed scene (F-contiguous, does not own its data)
+        out = np.ascontiguousarray(a.T).T
+    elif layout == 'strided':   # non-contiguous view into a larger array whose other cells hold junk
+        ny, nx = a.shape
+        if a.dtype == bool:
+            big = np.indices((2 * ny + 1, 3 * nx + 2)).sum(axis=0) % 2 == 0
+        else:
+            big = np.full((2 * ny + 1, 3 * nx + 2), 77).astype(a.dtype)
+        out = big[1:1 + 2 * ny:2, 2:2 + 3 * nx:3]
+        out[...] = a
+    elif layout == 'rev':    # negative strides on both axes
+        out = a[::-1, ::-1].copy()[::-1, ::-1]
+    elif layout == 'swap':   # non-native byte order (no effect on one-byte types)
+        out = a.astype(a.dtype.newbyteorder('S'))
+    else:
+        out = np.ascontiguousarray(a).copy()
+    assert out.shape == a.shape and np.array_equal(out, a, equal_nan=(a.dtype.kind == 'f'))
+    return out
+
+
+def assign_layout(rng, case):
+    """Memory layouts of data / 2-D threshold / mask: mostly the same for the three (an F-ordered scene stays F-ordered
+    through `data > threshold` and `&= inverse_mask`), sometimes independent."""
+    r = rng.random()
+    if r < 0.4:
+        lay = {'data': 'C', 'thr': 'C', 'mask': 'C'}
+    elif r < 0.85:
+        k = rng.choice(LAYOUTS[1:])
+        lay = {'data': k, 'thr': k, 'mask': k}
+    else:
+        lay = {'data': rng.choice(LAYOUTS), 'thr': rng.choice(LAYOUTS), 'mask': rng.choice(LAYOUTS)}
+    case['layout'] = lay
+    return case
+
+
+SCENE_BIG = {
+    'L': [(0, 0), (1, 0), (2, 0), (2, 1), (2, 2)],
+    'tallL': [(0, 0), (1, 0), (2, 0), (3, 0), (3, 1), (3, 2)],
+    'wideL': [(0, 0), (1, 0), (1, 1), (1, 2), (1, 3)],
+    'U': [(0, 0), (1, 0), (2, 0), (2, 1), (2, 2), (1, 2), (0, 2)],
+    'wideU': [(0, 0), (1, 0), (2, 0), (2, 1), (2, 2), (2, 3), (1, 3), (0, 3)],
+    'ring': [(0, 0), (0, 1), (0, 2), (0, 3), (1, 0), (1, 3), (2, 0), (2, 3), (3, 0), (3, 1), (3, 2), (3, 3)],
+    'bigring': [(0, 0), (0, 1), (0, 2), (0, 3), (0, 4), (1, 0), (1, 4), (2, 0), (2, 4), (3, 0), (3, 4),
+                (4, 0), (4, 1), (4, 2), (4, 3), (4, 4)],
+    'stair': [(0, 0), (0, 1), (1, 1), (1, 2), (2, 2), (2, 3)],
+    'hook': [(0, 0), (0, 1), (0, 2), (1, 2), (2, 2), (2, 1)],
+    'T': [(0, 0), (0, 1), (0, 2), (1, 1), (2, 1)],
+    'plus': [(0, 1), (1, 0), (1, 1), (1, 2), (2, 1)],
+    'bar': [(0, 0), (0, 1), (0, 2), (0, 3)],
+    'square': [(0, 0), (0, 1), (1, 0), (1, 1)],
+    'S': [(0, 1), (0, 2), (1, 1), (2, 1), (2, 0)],
+}
+SCENE_SMALL = {'dot': [(0, 0)], 'pair': [(0, 0), (0, 1)], 'tri': [(0, 0), (0, 1), (1, 0)]}
+
+
+def gen_scene_case(rng):
+    """Several kept (>= 4 pixels) irregular components whose bounding boxes overlap / nest / interleave without the
+    components touching, plus 1..4 small components (1-3 pixels, pruned by a typical npixels) dropped anywhere: before,
+    between and after the kept ones in raster order, inside and outside their bounding boxes.  Every arrangement of
+    'pruned' and 'kept' labels in scipy's numbering, with intruders from lower- and higher-numbered components inside
+    a kept component's bounding box, has positive probability."""
+    conn = rng.choice([4, 8])
+    ny, nx = rng.randint(5, 12), rng.randint(5, 12)
+    occupied = {}
+    boxes = []
+
+    def transform(pts):
+        if rng.random() < 0.5:
+            pts = [(x, y) for (y, x) in pts]
+        if rng.random() < 0.5:
+            pts = [(-y, x) for (y, x) in pts]
+        if rng.random() < 0.5:
+            pts = [(y, -x) for (y, x) in pts]
+        my, mx = min(p[0] for p in pts), min(p[1] for p in pts)
+        return [(y - my, x - mx) for (y, x) in pts]
+
+    def free(pts):
+        for (y, x) in pts:
+            if not (0 <= y < ny and 0 <= x < nx):
+                return False
+            for dy in (-1, 0, 1):
+                for dx in (-1, 0, 1):
+                    # never edge-adjacent; corner contact allowed only under 4-connectivity (and then only sometimes)
+                    if (y + dy, x + dx) in occupied and (conn == 8 or dy == 0 or dx == 0 or not diag_ok):
+                        return False
+        return True
+
+    def bbox(pts):
+        return (min(p[0] for p in pts), max(p[0] for p in pts), min(p[1] for p in pts), max(p[1] for p in pts))
+
+    def meets(b, c):
+        return not (b[1] < c[0] or c[1] < b[0] or b[3] < c[2] or c[3] < b[2])
+
+    diag_ok = rng.random() < 0.3
+    nbig = rng.randint(1, 4)
+    for i in range(nbig):
+        shape = transform(SCENE_BIG[rng.choice(sorted(SCENE_BIG))])
+        for attempt in range(40):
+            oy, ox = rng.randint(0, ny - 1), rng.randint(0, nx - 1)
+            pts = [(oy + y, ox + x) for (y, x) in shape]
+            if not free(pts):
+                continue
+            # the first tries insist on an overlap with the bounding box of a component already placed
+            if boxes and attempt < 30 and not any(meets(bbox(pts), b) for b in boxes):
+                continue
+            v = rng.randint(2, 6)
+            for q in pts:
+                occupied[q] = v
+            boxes.append(bbox(pts))
+            break
+    nsmall = rng.randint(0, 4)
+    for i in range(nsmall):
+        shape = transform(SCENE_SMALL[rng.choice(['dot', 'dot', 'pair', 'pair', 'tri'])])
+        where = rng.choice(['any', 'any', 'top', 'bottom', 'inbox'])
+        for attempt in range(30):
+            if where == 'top':
+                oy, ox = rng.randint(0, 1), rng.randint(0, nx - 1)
+            elif where == 'bottom':
+                oy, ox = rng.randint(ny - 2, ny - 1), rng.randint(0, nx - 1)
+            elif where == 'inbox' and boxes:
+                b = rng.choice(boxes)
+                oy, ox = rng.randint(b[0], b[1]), rng.randint(b[2], b[3])
+            else:
+                oy, ox = rng.randint(0, ny - 1), rng.randint(0, nx - 1)
+            pts = [(oy + y, ox + x) for (y, x) in shape]
+            if free(pts):
+                v = rng.randint(2, 6)
+                for q in pts:
+                    occupied[q] = v
+                break
+    data = np.zeros((ny, nx))
+    for (y, x), v in occupied.items():
+        data[y, x] = v
+    thr = float(rng.choice([0, 1, 1]))
+    mask = None
+    if rng.random() < 0.15:     # a few masked pixels split / shrink components
+        mask = np.zeros((ny, nx), bool)
+        for _ in range(rng.randint(1, 3)):
+            mask[rng.randrange(ny), rng.randrange(nx)] = True
+    case = dict(data=data, thr=thr, mask=mask, conn=conn, npix=1, kind='scene')
+    sizes = sorted(len(pix) for pix in components(case))
+    cand = [2, 3, 4, 4]
+    for k in sizes:
+        cand += [k, k + 1]
+    case['npix'] = rng.choice(cand)
+    return case
+
+
+def impl_args(case):
+    """Fresh (data, threshold, mask) arguments for the implementation, in the case's dtype and memory layouts."""
+    lay = case.get('layout') or {}
+    data = case['data'].copy() if not case.get('dtype') else case['data'].astype(case['dtype'])
+    data = with_layout(data, lay.get('data', 'C'))
+    thr = case['thr'] if np.isscalar(case['thr']) else with_layout(case['thr'], lay.get('thr', 'C'))
+    mask = None if case['mask'] is None else with_layout(case['mask'], lay.get('mask', 'C'))
+    return data, thr, mask
+
+
 def run_impl(case):
     from photutils.segmentation import detect_sources
     from photutils.utils.exceptions import NoDetectionsWarning
     with warnings.catch_warnings(record=True) as w:
         warnings.simplefilter('always')
-        data = case['data'].copy() if not case.get('dtype') else case['data'].astype(case['dtype'])
-        segm = detect_sources(data, case['thr'] if np.isscalar(case['thr']) else case['thr'].copy(),
-                              case['npix'], connectivity=case['conn'],
-                              mask=None if case['mask'] is None else case['mask'].copy())
+        data, thr, mask = impl_args(case)
+        segm = detect_sources(data, thr, case['npix'], connectivity=case['conn'], mask=mask)
     warned = any(issubclass(x.category, NoDetectionsWarning) for x in w)
     return segm, warned
 
@@ -363,7 +528,7 @@ def describe(case):
              for r in case['thr']],
             'dtype': case.get('dtype'),
             'mask': None if case['mask'] is None else case['mask'].astype(int).tolist(),
-            'connectivity': case['conn'], 'npixels': int(case['npix'])}
+            'connectivity': case['conn'], 'npixels': int(case['npix']), 'layout': case.get('layout')}
 
 
 def run(ctx):
@@ -371,9 +536,12 @@ def run(ctx):
     ctx.cov['rule'] = ('random small images (binary, plateaus, ramps, ties at threshold, blobs, diagonal contacts, NaN/inf data, 2-D '
                        'thresholds incl. NaN/inf entries, masks, integer/float32 dtypes) and larger frames of irregular '
                        'components with overlapping bounding boxes, x connectivity x npixels drawn near component sizes '
-                       'and bounding-box areas; thorough adds all binary images up '
+                       'and bounding-box areas; scenes of kept components with overlapping / nested bounding boxes '
+                       'interleaved in raster order with small pruned components (before / between / after / inside the '
+                       'boxes); every case in a memory layout of data / threshold / mask drawn from C, Fortran, transposed '
+                       'view, strided view of a larger array, negative strides, non-native byte order; thorough adds all binary images up '
                        'to 3x4/4x3; non-trivial = at least one pixel above threshold; distinct = distinct '
-                       '(data, threshold, mask, conn, npixels)')
+                       '(data, threshold, mask, conn, npixels, layout)')
     ctx.assumptions += ['scipy.ndimage.label / find_objects are modelled (components numbered in raster order of their '
                         'first pixel; tight boxes) and that model is compared with scipy itself on every non-empty foreground '
                         '(check_scipy) in addition to the end-to-end comparison of detect_sources with the proved models '
@@ -388,8 +556,14 @@ def run(ctx):
     cases = [gen_case(ctx.rng, small=(i % 3 == 0)) for i in range(n)]
     cases += [gen_shapes_case(ctx.rng) for _ in range(n // 2)]
     cases += [gen_intruder_case(ctx.rng) for _ in range(n // 8)]
+    cases += [gen_scene_case(ctx.rng) for _ in range(n // 2)]
+    for c in cases:
+        assign_layout(ctx.rng, c)
     if ctx.tier == 'thorough':
         ex = list(exhaustive_cases())
+        for i, c in enumerate(ex):      # all layouts in turn (no PRNG draw: the exhaustive sweep stays exhaustive)
+            k = LAYOUTS[i % len(LAYOUTS)]
+            c['layout'] = {'data': k, 'thr': k, 'mask': k}
         ctx.stat('generator', 'exhaustive_binary', len(ex))
         cases += ex
     impl = []
@@ -410,6 +584,8 @@ def run(ctx):
         ran.append(c)
         impl.append(segm)
         ctx.stat('kinds', c['kind'])
+        ctx.stat('layout', '/'.join(c['layout'][k] for k in ('data', 'thr', 'mask'))
+                 if len(set(c['layout'].values())) > 1 else c['layout']['data'])
         ctx.stat('result', 'None' if segm is None else 'segments')
         nontrivial = len(components(c)) > 0
         ctx.count_case(describe(c), nontrivial)
@@ -518,14 +694,16 @@ def run(ctx):
     ctx.stat('generator', 'detect_threshold_cases', nthr)
     # SourceFinder(deblend=False) equals detect_sources
     from photutils.segmentation import SourceFinder, detect_sources
-    for c in cases[:60] + cases[n:n + 40] + cases[n + n // 2:n + n // 2 + 20]:
+    for c in (cases[:60] + cases[n:n + 40] + cases[n + n // 2:n + n // 2 + 20]
+              + cases[n + n // 2 + n // 8:n + n // 2 + n // 8 + 40]):
         if c['mask'] is not None and c['mask'].all():
             continue
         with warnings.catch_warnings():
             warnings.simplefilter('ignore')
             try:
+                d_, t_, m_ = impl_args(c)
                 a = SourceFinder(npixels=c['npix'], connectivity=c['conn'], deblend=False, progress_bar=False)(
-                    c['data'], c['thr'], mask=c['mask'])
+                    d_, t_, mask=m_)
                 b, _ = run_impl(c)
             except Exception as e:
                 ctx.violation('SourceFinder:exception', f'SourceFinder(deblend=False) raised {type(e).__name__}: '
@@ -552,7 +730,7 @@ def replay(obj):
                            for v in row] for row in c['threshold']], float),
                 dtype=c.get('dtype'),
                 mask=None if c['mask'] is None else np.array(c['mask'], bool),
-                conn=c['connectivity'], npix=c['npixels'])
+                conn=c['connectivity'], npix=c['npixels'], layout=c.get('layout'))
     try:
         segm, _ = run_impl(case)
     except Exception as e:
